@@ -28,7 +28,7 @@ func allSpace(s string) bool {
 var lexExtraShapes = []shape{
 	{"dotword", []string{"@lower", ".", "@lower"}}, {"dashword", []string{"@lower", "-", "@digit"}},
 	{"trailesc", []string{"@lower", "\\"}}, {"q-esc-mb", []string{"\"", "\\", "@lead2", "@cont", "\""}},
-	{"re-esc", []string{"/", "\\", "/", "@lower", "/"}}, {"mbword", []string{"@lead2", "@cont", "@lower"}},
+	{"re-esc", []string{"/", "\\", "/", "@lower", "/"}}, {"re-bs", []string{"/", "@lower", "\\\\", "/"}}, {"re-bs2", []string{"/", "\\\\", "/"}}, {"mbword", []string{"@lead2", "@cont", "@lower"}},
 	{"q-open", []string{"\"", "@lower"}}, {"re-open", []string{"/", "@lower"}}, {"badchar", []string{"@bad"}},
 	{"minus-mb", []string{"-", "@lead2", "@cont"}}, {"esc-mb", []string{"\\", "@lead2", "@cont"}},
 	{"q-crlf", []string{"\"", "@lower", "\r\n", "@lower", "\""}}, {"re-crlf", []string{"/", "\r\n", "/"}}, {"esc-cr", []string{"@lower", "\\", "\r"}},
